@@ -82,15 +82,24 @@ def drive(w: World, naks: dict[int, list[bytes]], max_calls: int = 400):
     return recs, md_raw
 
 
-def cfg_of(size, seg, crc, cks, idw):
-    return {"mode": "ack", "size": size, "seg": seg, "crc": crc, "cks": cks, "src_idw": idw, "dst_idw": idw, "maxpkt": 200, "fs": "mem", "content": size % 4}
+OPTS = {"fs_requests": 2, "overrides": 1, "flow_label": "aabbcc"}
+MSGS = [["raw", "0102030405"], ["orig", 5, 2, 7, 2]]
+
+
+def cfg_of(size, seg, crc, cks, idw, opts=False):
+    c = {"mode": "ack", "size": size, "seg": seg, "crc": crc, "cks": cks, "src_idw": idw, "dst_idw": idw, "maxpkt": 200, "fs": "mem", "content": size % 4}
+    if opts:
+        # Metadata PDU with filestore requests, fault handler overrides, flow label and messages to user
+        c["opts"] = dict(OPTS)
+        c["msgs"] = [list(m) for m in MSGS]
+    return c
 
 
 _REF_CACHE: dict = {}
 
 
 def reference(cfg):
-    key = tuple(sorted(cfg.items()))
+    key = repr(sorted(cfg.items()))
     if key not in _REF_CACHE:
         with World(cfg) as w:
             recs, md = drive(w, {})
@@ -128,8 +137,9 @@ def gen_cases(tier, seed):
     grid = list(itertools.product((0, 3, 10, 17), (4, 5), (False, True), ("crc32", "modular"), (1, 2)))
     if tier == "quick":
         grid = [g for i, g in enumerate(grid) if g[2] == (g[0] % 2 == 1) and g[3] == ("crc32" if g[1] == 4 else "modular")] + [(10, 4, True, "crc32", 4)]
-    for size, seg, crc, cks, idw in grid:
-        cfg = cfg_of(size, seg, crc, cks, idw)
+    grid = [g + (False,) for g in grid] + [(10, 4, False, "crc32", 2, True), (0, 4, True, "crc32", 1, True)]
+    for size, seg, crc, cks, idw, opts in grid:
+        cfg = cfg_of(size, seg, crc, cks, idw, opts)
         ref, _ = reference(cfg)
         for r in ref:
             k, p = r["ref_idx"], r["sent_before"]
@@ -147,7 +157,7 @@ def gen_cases(tier, seed):
         seg = rng.choice([1, 3, 4, 8])
         if size > 20 and seg == 1:
             seg = 3
-        cfg = cfg_of(size, seg, rng.random() < 0.5, rng.choice(["crc32", "crc32c", "modular", "null"]), rng.choice([1, 2, 4]))
+        cfg = cfg_of(size, seg, rng.random() < 0.5, rng.choice(["crc32", "crc32c", "modular", "null"]), rng.choice([1, 2, 4]), rng.random() < 0.3)
         ref, _ = reference(cfg)
         naks = {}
         names = []
@@ -316,7 +326,10 @@ def run_case(case):
             viol.append({"clause": "sender-not-idle-at-end", "step": w.S.h.step.name})
         for v in viol:
             v["cfg"] = {k: cfg[k] for k in ("size", "seg", "crc", "cks", "src_idw")}
+            v["metadata_options"] = bool(cfg.get("opts"))
             v["naks"] = case["naks"]
+        if cfg.get("opts") and obs.get("metadata_retransmissions_checked"):
+            obs["metadata_with_options_retransmissions_checked"] = obs["metadata_retransmissions_checked"]
         sig = case if reached else None
         sample = None
         if reached and any(n in ("unaligned", "multi_seg") for n in case["names"]):
@@ -364,5 +377,5 @@ def judge_response(retrans, reqs, data, eff, md_ref, prefix_ok):
     return None
 
 
-REQUIRED = {"responses_checked": 200, "metadata_retransmissions_checked": 20, "naks_with_invalid_request": 100, "naks_at_step_SENDING_FILE_DATA": 50,
+REQUIRED = {"responses_checked": 200, "metadata_retransmissions_checked": 20, "metadata_with_options_retransmissions_checked": 10, "naks_with_invalid_request": 100, "naks_at_step_SENDING_FILE_DATA": 50,
             "naks_at_step_WAITING_FOR_EOF_ACK": 50, "naks_at_step_WAITING_FOR_FINISHED": 50, "original_streams_equal_to_reference": 200}
